@@ -99,6 +99,36 @@ def multiblock_cases(first_id, limits):
     return [c for c in out if len(c["bytes"]) <= 200000]
 
 
+def sized_lie_cases(first_id, limits):
+    """Array/map blocks in the sized layout (negative count, then a byte size) whose DECLARED BYTE SIZE is far above the
+    allocation limit while almost no data follows; the collection sits where a decoder - or a deserializer that
+    skips the field (Rust type lacking it) - meets it: top level, first / second record field, union branch, nested.
+    Inputs only; TLA+ judges (allocation bound, outcome alphabet, decoder agreement)."""
+    long_, int_, str_ = {"k": "long"}, {"k": "int"}, {"k": "string"}
+    arr = {"k": "array", "items": long_}
+    mp = {"k": "map", "values": str_}
+    shapes = [
+        (arr, []), (mp, []),
+        ({"k": "record", "name": "SL1", "fields": [{"name": "a", "type": arr}, {"name": "b", "type": int_}]}, []),
+        ({"k": "record", "name": "SL2", "fields": [{"name": "a", "type": int_}, {"name": "b", "type": mp}]}, [2]),
+        ({"k": "record", "name": "SL3", "fields": [{"name": "a", "type": int_}, {"name": "b", "type": arr}, {"name": "c", "type": int_}]}, [2]),
+        ({"k": "union", "branches": [{"k": "null"}, arr]}, [2]),
+        ({"k": "array", "items": arr}, [2]),            # outer block of one item, then the lying inner block
+    ]
+    out = []
+    for limit in limits:
+        if limit > (1 << 20):
+            continue
+        for schema, prefix in shapes:
+            for size in (16 * limit + 1, 1 << 26):
+                for count in (1, 3):
+                    for tail in ([], [2, 2, 0]):
+                        b = list(prefix) + _zz(-count) + _zz(size) + tail
+                        out.append({"id": first_id + len(out), "entry": "datum", "s": schema, "bytes": b,
+                                    "origin": f"sizedlie-{count}x{size}", "only_limit": limit})
+    return out
+
+
 def run(prop, tier, seed, replay=None):
     rep = vf.Report(prop, tier, seed)
     vf.build_harness()
@@ -153,6 +183,7 @@ def run(prop, tier, seed, replay=None):
         if prop == "C05":
             # limit-aware hostile inputs: many blocks that are each below the limit but add up far beyond it
             cases += multiblock_cases(len(cases), limits)
+            cases += sized_lie_cases(len(cases), limits)
     events = []
     # split the cases over the limits (each case under one limit; the enumerated set under the smallest and the largest)
     for li, limit in enumerate(limits):
